@@ -56,6 +56,12 @@ pub enum ValSpec {
     Str(Option<String>),
     Char(Option<char>),
     Bytes(Option<Vec<u8>>),
+    /// value-type features (only generated and only typed in `ts` builds; plain strings otherwise)
+    Json(Option<String>),
+    Uuid(Option<(u64, u64)>),
+    ChronoDateTime(Option<i64>),
+    Decimal(Option<(i64, u32)>),
+    Array(Option<Vec<i32>>),
 }
 
 pub const STRINGS: &[&str] = &[
@@ -87,12 +93,39 @@ impl ValSpec {
             ValSpec::Str(v) => Value::String(v.clone().map(Box::new)),
             ValSpec::Char(v) => Value::Char(*v),
             ValSpec::Bytes(v) => Value::Bytes(v.clone().map(Box::new)),
+            #[cfg(feature = "ts")]
+            ValSpec::Json(v) => Value::Json(v.as_ref().map(|s| Box::new(serde_json::from_str(s).unwrap_or(serde_json::Value::Null)))),
+            #[cfg(feature = "ts")]
+            ValSpec::Uuid(v) => Value::Uuid(v.map(|(a, b)| Box::new(uuid::Uuid::from_u64_pair(a, b)))),
+            #[cfg(feature = "ts")]
+            ValSpec::ChronoDateTime(v) => Value::ChronoDateTime(v.and_then(|t| {
+                chrono::DateTime::<chrono::Utc>::from_timestamp(t, 0).map(|d| Box::new(d.naive_utc()))
+            })),
+            #[cfg(feature = "ts")]
+            ValSpec::Decimal(v) => Value::Decimal(v.map(|(m, sc)| Box::new(rust_decimal::Decimal::new(m, sc % 20)))),
+            #[cfg(feature = "ts")]
+            ValSpec::Array(v) => Value::Array(
+                sea_query::ArrayType::Int,
+                v.as_ref().map(|xs| Box::new(xs.iter().map(|x| Value::Int(Some(*x))).collect())),
+            ),
+            #[cfg(not(feature = "ts"))]
+            other => Value::String(Some(Box::new(format!("{:?}", other)))),
         }
     }
 }
 
 pub fn gen_val(r: &mut Rng, allow_nan: bool) -> ValSpec {
     let null = r.pct(8);
+    #[cfg(feature = "ts")]
+    if r.pct(15) {
+        return match r.below(5) {
+            0 => ValSpec::Json(if null { None } else { Some(r.pick(&["{\"a\":1}", "[1,\"x\"]", "null", "\"it's\""]).to_string()) }),
+            1 => ValSpec::Uuid(if null { None } else { Some((r.next(), r.next())) }),
+            2 => ValSpec::ChronoDateTime(if null { None } else { Some((r.below(2_000_000_000)) as i64) }),
+            3 => ValSpec::Decimal(if null { None } else { Some(((r.below(1_000_000) as i64) - 500_000, r.below(6) as u32)) }),
+            _ => ValSpec::Array(if null { None } else { Some((0..r.below(4)).map(|_| r.below(100) as i32).collect()) }),
+        };
+    }
     match r.below(16) {
         0 => ValSpec::Bool(if null { None } else { Some(r.coin()) }),
         1 => ValSpec::TinyInt(if null { None } else { Some(r.next() as i8) }),
